@@ -4,10 +4,12 @@ import (
 	"context"
 	"fmt"
 	context2 "github.com/oneconcern/datamon/pkg/context"
+	"github.com/oneconcern/datamon/pkg/storage"
 	"os"
 	"regexp"
 	"sort"
 	"strings"
+	"sync"
 	"testing"
 	"time"
 
@@ -43,6 +45,31 @@ type caseT struct {
 	// BreakMeta: the n-th metadata object the download reads (descriptor, file lists) breaks half-way through its
 	// transfer. The download may then fail; if it reports success the destination must be complete all the same
 	BreakMeta int `json:"break_metadata_read,omitempty"`
+	// SrcHasFault: the n-th existence probe (Has) of the source store fails once during the upload. The upload may
+	// fail; if it reports success the bundle holds every file it had to hold (a failed probe is not "missing")
+	SrcHasFault int `json:"source_has_fault,omitempty"`
+}
+
+// flakyHas is a source store whose n-th Has fails once
+type flakyHas struct {
+	storage.Store
+	mu   sync.Mutex
+	nth  int
+	hits int
+}
+
+func (f *flakyHas) Has(ctx context.Context, key string) (bool, error) {
+	f.mu.Lock()
+	f.nth--
+	hit := f.nth == 0
+	if hit {
+		f.hits++
+	}
+	f.mu.Unlock()
+	if hit {
+		return false, fmt.Errorf("injected: transient failure of the existence probe of %q", key)
+	}
+	return f.Store.Has(ctx, key)
 }
 
 func drawCase(t *rapid.T) caseT {
@@ -101,6 +128,9 @@ func drawCase(t *rapid.T) caseT {
 	}
 	c.Download = rapid.SampledFrom([]string{"publish", "publish", "select", "file"}).Draw(t, "download")
 	c.Reuse = rapid.IntRange(0, 3).Draw(t, "reuse") == 0
+	if rapid.IntRange(0, 4).Draw(t, "srchasfault") == 0 {
+		c.SrcHasFault = rapid.IntRange(1, 6).Draw(t, "srchasfault_nth")
+	}
 	if rapid.IntRange(0, 4).Draw(t, "breakmeta") == 0 {
 		c.BreakMeta = rapid.IntRange(1, 4).Draw(t, "breakmeta_nth")
 	}
@@ -164,8 +194,21 @@ func runCase(c caseT) error {
 		keys := append([]string{}, c.Keys...)
 		getKeys = func() ([]string, error) { return keys, nil }
 	}
-	b := hx.NewBundle("repo", v.Stores, hx.Local(src), L, core.ConcurrentFileUploads(c.UpConc), core.SkipMissing(c.Skip))
+	var srcStore storage.Store = hx.Local(src)
+	var fh *flakyHas
+	if c.SrcHasFault > 0 {
+		fh = &flakyHas{Store: srcStore, nth: c.SrcHasFault}
+		srcStore = fh
+	}
+	b := hx.NewBundle("repo", v.Stores, srcStore, L, core.ConcurrentFileUploads(c.UpConc), core.SkipMissing(c.Skip))
 	err := core.VerifUpload(ctx, b, c.EPF, getKeys)
+	if fh != nil && fh.hits > 0 {
+		stats.Count("upload_with_a_failed_source_probe", 1)
+		if err != nil && !expectFail {
+			stats.Count("upload_refused_after_a_failed_source_probe", 1)
+			return nil
+		}
+	}
 	if expectFail {
 		if err == nil {
 			return fmt.Errorf("upload of a key list with a missing key (skip-missing off) succeeded")
